@@ -7,15 +7,64 @@ package manager
 
 import (
 	"fmt"
+	"net"
 	"os"
 	"strings"
 	"sync"
 	"testing"
 	"time"
 
+	"github.com/gopacket/gopacket"
+	"github.com/gopacket/gopacket/layers"
+	"github.com/gopacket/gopacket/pcapgo"
 	"github.com/spq/pkappa2/internal/verif/vlib"
 	"pgregory.net/rapid"
 )
+
+// c20Feeder is a PCAP-over-IP peer: every connection gets a pcap stream of a few UDP datagrams of its own flow.
+func c20Feeder(stop chan struct{}, wg *sync.WaitGroup) (string, func(), error) {
+	ln, err := net.Listen("tcp", "127.0.0.1:0")
+	if err != nil {
+		return "", nil, err
+	}
+	wg.Add(1)
+	go func() {
+		defer wg.Done()
+		for n := 0; ; n++ {
+			conn, err := ln.Accept()
+			if err != nil {
+				return
+			}
+			wg.Add(1)
+			go func(conn net.Conn, n int) {
+				defer wg.Done()
+				defer conn.Close()
+				w := pcapgo.NewWriter(conn)
+				if w.WriteFileHeader(65536, layers.LinkTypeIPv4) != nil {
+					return
+				}
+				fl := veFlow{Client: "10.9.9.1", Server: "10.9.9.2", CPort: uint16(5000 + n%1000), SPort: 9}
+				for i := 0; i < 6; i++ {
+					data, _ := veSerializeUDP(fl, i%2, "feed")
+					ci := gopacket.CaptureInfo{Timestamp: time.Date(2024, 1, 2, 14, 0, 0, 0, time.UTC).Add(time.Duration(n*100+i) * time.Millisecond), CaptureLength: len(data), Length: len(data)}
+					if w.WritePacket(ci, data) != nil {
+						return
+					}
+					select {
+					case <-stop:
+						return
+					case <-time.After(3 * time.Millisecond):
+					}
+				}
+				select {
+				case <-stop:
+				case <-time.After(30 * time.Millisecond):
+				}
+			}(conn, n)
+		}
+	}()
+	return ln.Addr().String(), func() { ln.Close() }, nil
+}
 
 func c20Prop(rt *rapid.T, c *vlib.Case, t *testing.T) {
 	base, err := os.MkdirTemp("", "c20-")
@@ -85,9 +134,22 @@ func c20Prop(rt *rapid.T, c *vlib.Case, t *testing.T) {
 			}
 		}()
 	}
+	feedAddr, closeFeeder, err := c20Feeder(stop, &wg)
+	if err != nil {
+		rt.Fatalf("harness: listen: %v", err)
+	}
+	fed := false
 	steps := rapid.IntRange(8, 30).Draw(rt, "steps")
 	for i := 0; i < steps; i++ {
-		switch rapid.SampledFrom([]string{"import", "import", "tag", "tag", "tag", "mark", "conv", "conv", "reset", "view", "pause"}).Draw(rt, "step") {
+		switch rapid.SampledFrom([]string{"import", "import", "tag", "tag", "tag", "mark", "conv", "conv", "reset", "view", "pause", "endpoint"}).Draw(rt, "step") {
+		case "endpoint":
+			if rapid.IntRange(0, 2).Draw(rt, "addendpoint") != 0 {
+				if r.apiCall("AddPcapOverIPEndpoint", func() error { return e.mgr.AddPcapOverIPEndpoint(feedAddr) }) == nil {
+					fed = true
+				}
+			} else {
+				r.apiCall("DelPcapOverIPEndpoint", func() error { return e.mgr.DelPcapOverIPEndpoint(feedAddr) })
+			}
 		case "import":
 			if r.nextCapture < r.tr.captures() {
 				r.stepImport()
@@ -121,6 +183,13 @@ func c20Prop(rt *rapid.T, c *vlib.Case, t *testing.T) {
 	if rapid.IntRange(0, 3).Draw(rt, "longtail") == 0 {
 		time.Sleep(1100 * time.Millisecond)
 	}
+	// no further packets: remove the endpoint and the peer, then let the imports it caused drain
+	_ = e.mgr.DelPcapOverIPEndpoint(feedAddr)
+	closeFeeder()
+	if fed {
+		time.Sleep(30 * time.Millisecond)
+	}
+	c.LabelIf(fed, "pcap-over-ip-endpoint-fed")
 	if err := e.waitIdle(60 * time.Second); err != nil {
 		close(stop)
 		closeListener()
